@@ -198,7 +198,9 @@ def judge(case) -> Outcome:
             mm = model_matrix(f, df, output=case["output"], context=CTX)
         except Exception as e:  # noqa: BLE001
             msg = str(e)
-            if "ValueError" in msg or isinstance(e, ValueError):
+            from .c12 import VALIDATION_PHRASES
+
+            if ("ValueError" in msg or isinstance(e, ValueError)) and any(p in msg for p in VALIDATION_PHRASES):
                 out.decided = False  # parameter combination a transform documents as invalid for this data (e.g. df too small)
                 out.see("fit_rejected")
                 return out
